@@ -18,7 +18,7 @@ CHECKS = {
         "a second pass of the directory store looks through the recorded shared-md5-file finding so that histories through it are explored too.",
         design_ref="DESIGN.md section 2 / C13",
         note="Trusted: TLC, the projection in harness/check_C13.py (reads through the public API only), md5 via hashlib. "
-        "Identifiers without embedded dots / suffix substrings; logs checked for presence and last content only; "
+        "Replay of the multi-identifier instantiations is budget-sampled (stratified by action, first levels complete) in both tiers; the one-identifier instantiation is exhaustive. Logs checked for presence and last content only; "
         "ReadOnlyDataStoreZipped only as a read-only view of a zipped directory store. Processes are simulated by patching os.getpid.",
         technique="TLA+ model (TLC exhaustive) + spec->code transition replay + code->spec trace validation",
     ),
